@@ -201,6 +201,9 @@ def sequence_cases(draw):
     if kind == 'hanzi':
         kw['mode'] = 'hanzi'
         kw.pop('encoding', None)
+        if draw(st.integers(0, 2)) == 0:
+            # (GB2312 is used for hanzi whatever encoding is given)
+            kw['encoding'] = draw(st.sampled_from(['euc_jp', 'euc_kr', 'gb2312', 'utf-8', 'big5']))
     return {'fn': 'make_sequence', 'content': enc_content(content), 'kw': kw}
 
 
